@@ -185,6 +185,26 @@ def scan_variants_probe(run, key="scan/VARIANTS"):
         run.failure(f"{key}/dense", f"dense scan of {n} instructions ({len(stream)} characters): {len(hits)} findings, expected {n}; findings that are no address of the listing: {extra}", {"kind": "scan_long", "planted": [], "n": n})
 
 
+def nested_long_probe(run, key="scan/NESTED-LONG"):
+    """nested operators whose occurrence straddles a power-of-two record border of a long listing: found in first-match and
+    all-matches mode exactly like the flat spelling of the same sequence"""
+    n = 2 * 16384 + 100
+    rules = {"any_order_of_and": {"pattern": [{"$and_any_order": ["xchg", {"$and": ["cpuid", "rdtsc"]}]}]}, "or_of_and": {"pattern": [{"$or": [{"$and": ["xchg", "cpuid", "rdtsc"]}, "ud2"]}]}, "flat": {"pattern": ["xchg", "cpuid", "rdtsc"]}}
+    for starts in ([16382], [8190, 32766], [16383, 32767]):
+        L = [(format(0x400000 + 2 * i, "x"), "nop", []) for i in range(n)]
+        for p in starts:
+            for k, m in enumerate(("xchg", "cpuid", "rdtsc")):
+                L[p + k] = (L[p + k][0], m, ["%ax", "%ax"] if m == "xchg" else [])
+        want = [format(0x400000 + 2 * p, "x") for p in starts]
+        for nm, doc in rules.items():
+            rgx = jasmapi.compile_rule(doc)
+            _, hits, _ = jasmapi.run_consumer(rgx, L, all_matches=True, only_addr=True)
+            f1, first, _ = jasmapi.run_consumer(rgx, L, all_matches=False, only_addr=True)
+            run.count("traces_validated_against_impl")
+            if hits != want or first != want[:1] or not f1:
+                run.failure(key, f"rule {nm}: occurrences at records {starts} of a {n}-instruction listing: all-matches {hits}, first-match {first}; expected {want}", {"kind": "scan_long", "planted": starts, "n": n})
+
+
 def main():
     run = Run("C11", "model_checking", "RX+CH")
     # AEM at offset 0 is what makes "the first reported match is the leftmost one" a statement about the very first
@@ -202,6 +222,7 @@ def main():
     scan_validation(run, T.gamma11(tier(), seed()))
     long_match_probe(run)
     scan_variants_probe(run)
+    nested_long_probe(run)
     long_listing_probe(run)
     hs = [h for h in c12.harnesses(tier()) if "/modes/" in h.name]
     for h in hs:
